@@ -358,7 +358,17 @@ def run(pid, tier, args):
         v.notes["family"] = "seeded grammars (seed %d) of family F_%s, inputs: exhaustive short token strings + sampled/mutated sentences; every lookahead of each case" % (vlib.seed(), pid)
         v.assumptions += ["struct types built with reflect.StructOf and participle.Union (dynamic, anonymous types)", "token streams of the case file equal Parser.Lex (self-checked each run)",
                           "grammar-bug constructs (nullable alternative/repetition body) are excluded from the verdict"]
-        if pid in ("C01", "C02") and tier == "thorough" and not args.replay:
+        if pid in ("C01", "C02") and not args.replay:
+            # small-step machine: refinement to Meaning + validation of the real parser's hook traces
             from props import machine
-            machine.refinement(v, wd, pid)
+            rngm = random.Random(vlib.seed() + 99)
+            sub = []
+            for g in (gs if pid == "C02" else gs[: (6 if tier == "quick" else 60)]):
+                g2 = {k: vv for k, vv in g.items() if k != "groups"}
+                idx = list(range(len(g["inputs"])))
+                rngm.shuffle(idx)
+                g2["inputs"] = [dict(g["inputs"][i]) for i in sorted(idx[: (12 if tier == "quick" else 60) if pid == "C02" else (60 if tier == "quick" else 200)])]
+                g2["ks"] = g["ks"][:3] if tier == "quick" else g["ks"]
+                sub.append(g2)
+            machine.check(v, wd, vhbin, sub, pid)
     return v.finish()
